@@ -1,0 +1,64 @@
+//go:build verif
+
+package protocol
+
+// Verification hooks: exported wrappers around unexported pieces of this
+// package so that an external harness can drive the real code. This file is
+// add-only and compiled only with `-tags verif`.
+
+import (
+	"net"
+
+	"github.com/bolkedebruin/rdpgw/cmd/rdpgw/identity"
+	"github.com/bolkedebruin/rdpgw/cmd/rdpgw/transport"
+)
+
+func VerifNewTunnel(in transport.Transport, out transport.Transport, user identity.Identity, remoteAddr string) *Tunnel {
+	return &Tunnel{
+		Id:           "verif",
+		RDGId:        "verif",
+		transportIn:  in,
+		transportOut: out,
+		RemoteAddr:   remoteAddr,
+		User:         user,
+	}
+}
+
+func (t *Tunnel) VerifRwc() net.Conn         { return t.rwc }
+func (t *Tunnel) VerifSetRwc(c net.Conn)     { t.rwc = c }
+func (t *Tunnel) VerifHasTransportIn() bool  { return t.transportIn != nil }
+func (t *Tunnel) VerifHasTransportOut() bool { return t.transportOut != nil }
+func (p *Processor) VerifState() int         { return p.state }
+func (p *Processor) VerifSetState(s int)     { p.state = s }
+func (p *Processor) VerifTunnel() *Tunnel    { return p.tunnel }
+
+func VerifReadHeader(data []byte) (uint16, uint32, []byte, error) { return readHeader(data) }
+func VerifReadMessage(in transport.Transport) (int, int, []byte, error) {
+	return readMessage(in)
+}
+func VerifCreatePacket(pktType uint16, data []byte) []byte { return createPacket(pktType, data) }
+func VerifForward(in net.Conn, t *Tunnel)                  { forward(in, t) }
+func VerifReceive(data []byte, out net.Conn)               { receive(data, out) }
+func VerifMakeRedirectFlags(f RedirectFlags) int           { return makeRedirectFlags(f) }
+
+func (p *Processor) VerifMatchAuth(client uint16) (uint16, error) { return p.matchAuth(client) }
+func (p *Processor) VerifHandshakeRequest(d []byte) (byte, byte, uint16, uint16) {
+	return p.handshakeRequest(d)
+}
+func (p *Processor) VerifTunnelRequest(d []byte) (uint32, string)  { return p.tunnelRequest(d) }
+func (p *Processor) VerifTunnelAuthRequest(d []byte) string        { return p.tunnelAuthRequest(d) }
+func (p *Processor) VerifChannelRequest(d []byte) (string, uint16) { return p.channelRequest(d) }
+func (p *Processor) VerifHandshakeResponse(major, minor byte, caps uint16, code int) []byte {
+	return p.handshakeResponse(major, minor, caps, code)
+}
+func (p *Processor) VerifTunnelResponse(code int) []byte       { return p.tunnelResponse(code) }
+func (p *Processor) VerifTunnelAuthResponse(code int) []byte   { return p.tunnelAuthResponse(code) }
+func (p *Processor) VerifChannelResponse(code int) []byte      { return p.channelResponse(code) }
+func (p *Processor) VerifChannelCloseResponse(code int) []byte { return p.channelCloseResponse(code) }
+
+func (g *Gateway) VerifSetSendReceiveBuffers(conn net.Conn) error {
+	return g.setSendReceiveBuffers(conn)
+}
+
+// VerifConnectionCount reports the size of the connection registry.
+func VerifConnectionCount() int { return len(Connections) }
